@@ -3,6 +3,7 @@ package rules
 
 import (
 	"go/ast"
+	"go/token"
 	"go/types"
 	"strings"
 
@@ -493,4 +494,69 @@ func SiteOwners(p *core.Program, fd *core.FuncDecl) []string {
 		return gone
 	}
 	return []string{cur.Key()}
+}
+
+// ResolveLocal follows a local that is assigned exactly once in scope (by `x := e`, `var x T = e`, or one `x = e`) to the
+// expression it names, repeatedly (at most four steps); parameters, range variables, multiply-assigned locals and
+// tuple-assigned locals stay as they are. Rules that look at "the argument" or "the returned value" use it, so that naming
+// a sub-expression first does not change what they see.
+func ResolveLocal(info *types.Info, scope ast.Node, e ast.Expr) ast.Expr {
+	for depth := 0; depth < 4; depth++ {
+		id, ok := ast.Unparen(e).(*ast.Ident)
+		if !ok {
+			return e
+		}
+		o, isVar := info.ObjectOf(id).(*types.Var)
+		if !isVar || o.IsField() || o.Pkg() == nil || o.Parent() == o.Pkg().Scope() {
+			return e
+		}
+		var def ast.Expr
+		n, bad := 0, false
+		ast.Inspect(scope, func(m ast.Node) bool {
+			switch x := m.(type) {
+			case *ast.AssignStmt:
+				for i, l := range x.Lhs {
+					if lid, ok := ast.Unparen(l).(*ast.Ident); ok && info.ObjectOf(lid) == o {
+						n++
+						if len(x.Lhs) == len(x.Rhs) && (x.Tok == token.DEFINE || x.Tok == token.ASSIGN) {
+							def = x.Rhs[i]
+						} else {
+							bad = true
+						}
+					}
+				}
+			case *ast.ValueSpec:
+				for i, nm := range x.Names {
+					if info.ObjectOf(nm) == o {
+						if len(x.Values) == len(x.Names) {
+							n++
+							def = x.Values[i]
+						} else if len(x.Values) != 0 {
+							bad = true
+						}
+					}
+				}
+			case *ast.RangeStmt:
+				for _, l := range []ast.Expr{x.Key, x.Value} {
+					if lid, ok := l.(*ast.Ident); ok && info.ObjectOf(lid) == o {
+						bad = true
+					}
+				}
+			case *ast.IncDecStmt:
+				if lid, ok := ast.Unparen(x.X).(*ast.Ident); ok && info.ObjectOf(lid) == o {
+					bad = true
+				}
+			case *ast.UnaryExpr:
+				if lid, ok := ast.Unparen(x.X).(*ast.Ident); ok && x.Op == token.AND && info.ObjectOf(lid) == o {
+					bad = true
+				}
+			}
+			return true
+		})
+		if bad || n != 1 || def == nil {
+			return e
+		}
+		e = def
+	}
+	return e
 }
